@@ -7,7 +7,7 @@ package keyid
 //vsym:model encoding/json.Unmarshal m05Unmarshal
 //vsym:replay same-harness
 //vsym:expect-cover C05.marshal.ok C05.marshal.refused C05.decode.ok C05.decode.refused C05.decode.version-refused C05.decode.missing-key
-//vsym:bound H05_marshal: all four flags, touch policy (64-bit), usage (64-bit) and version (16-bit) symbolic; strings and the single principal symbolic, all of one common length 0..2 bytes
+//vsym:bound H05_marshal: all four flags, touch policy (64-bit), usage (64-bit) and version (16-bit) symbolic; strings and the single principal symbolic, all of one common length 0..2 bytes; principals also nil (JSON null)
 //vsym:bound H05_decode_any: the decoder's result is an arbitrary KeyID (every scalar symbolic, 1-byte symbolic strings, 0..2 principals) with an arbitrary key-presence predicate over the struct's JSON names and the statement's eleven names, or a decoding error
 //vsym:assume encoding/json is modelled by its contract for a struct of exported, distinctly tagged, marshaler-free fields; the field -> JSON name / omitempty table is re-read from the struct tags of the loaded source on every run (vJSONFields)
 
@@ -36,6 +36,7 @@ var m05Arbitrary bool            // the text handed to Unmarshal is arbitrary in
 var m05ArbErr bool               // ... and does not decode
 var m05ArbKid KeyID              // ... or decodes to this
 var m05ArbPresent map[string]bool
+var m05PrinsName = "prins" // JSON name of the Principals field (re-read from the tags in m05Marshal)
 
 func m05FieldZero(k *KeyID, goName string) bool {
 	switch goName {
@@ -78,6 +79,9 @@ func m05Marshal(v any) ([]byte, error) {
 	m05SnapPresent = map[string]bool{}
 	for _, f := range vJSONFields(k) {
 		p := strings.Split(f, "|")
+		if p[0] == "Principals" {
+			m05PrinsName = p[1]
+		}
 		emitted := true
 		if p[2] == "true" {
 			emitted = !m05FieldZero(k, p[0])
@@ -145,7 +149,12 @@ func m05Unmarshal(data []byte, v any) error {
 			*dst = map[string]interface{}{}
 		}
 		for name, pr := range present {
-			vMapPutIf(*dst, name, nil, pr)
+			// the decoded value: JSON null (nil) for a nil slice, something non-nil otherwise
+			var val interface{} = true
+			if name == m05PrinsName && src.Principals == nil {
+				val = nil
+			}
+			vMapPutIf(*dst, name, val, pr)
 		}
 		return nil
 	}
@@ -160,8 +169,12 @@ func h05Str(name string) string { return vNondetString(name, h05Len) }
 
 func H05_marshal() {
 	h05Len = vChoose(3, "string-len")
+	prins := []string{h05Str("prin")}
+	if vChoose(2, "nil-principals") == 1 {
+		prins = nil // encoded as "prins":null
+	}
 	k := &KeyID{
-		Principals:    []string{h05Str("prin")},
+		Principals:    prins,
 		TransID:       h05Str("transid"),
 		ReqUser:       h05Str("user"),
 		ReqIP:         h05Str("ip"),
@@ -193,8 +206,8 @@ func H05_marshal() {
 	if err2 != nil || k2 == nil {
 		return
 	}
-	eq := vAnd(len(k2.Principals) == 1, true)
-	if len(k2.Principals) == 1 {
+	eq := vAnd(len(k2.Principals) == len(k.Principals), true)
+	if len(k2.Principals) == 1 && len(k.Principals) == 1 {
 		eq = vAnd(eq, vEqString(k2.Principals[0], k.Principals[0]))
 	}
 	eq = vAnd(eq, vEqString(k2.TransID, k.TransID))
